@@ -420,3 +420,481 @@ func (tr *gtTr) asValueRange(x *ast.RangeStmt, env *venv) *ast.RangeStmt {
 	}
 	return rs
 }
+
+// ---- walks from the end of a slice ----
+//
+// Three spellings of "visit the elements of xs from the last to the first" (xs a slice variable or a slice field of a
+// struct variable, not assigned by the body; the counter not assigned by the body and used ONLY in the index shown):
+//
+//	for i := range xs            { ... xs[len(xs)-i-1] ... }      (also len(xs)-1-i)
+//	for i := len(xs)-1; i >= 0; i-- { ... xs[i] ... }
+//	for d := len(xs); d > 0; d--  { ... xs[d-1] ... }
+//
+// Each of them is the loop  for _, x' := range rev(xs) { ... x' ... }: the index is in range at every iteration (so no
+// iteration panics on the index), the elements are read in the order of rev xs, the slice is as it was when the loop
+// was entered (the body cannot change it: assignedIn), `continue` goes to the next element, `break` / `return` leave,
+// and the counter is scoped to the loop.  The reversed list is written with the pseudo call ` rev`(xs) (a name no Go
+// program can contain), which tr.call translates as (rev xs).
+const gtRevName = " rev"
+
+// sliceRef: xs is `v` or `v.f`; the text it is compared by and its root variable
+func sliceRef(e ast.Expr) (string, string, bool) {
+	switch x := unparen(e).(type) {
+	case *ast.Ident:
+		return x.Name, x.Name, true
+	case *ast.SelectorExpr:
+		if id, ok := unparen(x.X).(*ast.Ident); ok {
+			return id.Name + "." + x.Sel.Name, id.Name, true
+		}
+	}
+	return "", "", false
+}
+
+func isLenOf(e ast.Expr, ref string) bool {
+	c, ok := unparen(e).(*ast.CallExpr)
+	if !ok || !isIdent(c.Fun, "len") || len(c.Args) != 1 {
+		return false
+	}
+	r, _, ok := sliceRef(c.Args[0])
+	return ok && r == ref
+}
+
+func isIntLit(e ast.Expr, want int64) bool {
+	z, ok := intLit(unparen(e))
+	return ok && z == want
+}
+
+// isSub: e = a - b
+func isSub(e ast.Expr) (ast.Expr, ast.Expr, bool) {
+	b, ok := unparen(e).(*ast.BinaryExpr)
+	if !ok || b.Op != token.SUB {
+		return nil, nil, false
+	}
+	return b.X, b.Y, true
+}
+
+// revRange builds the range loop over rev(xs) from the body of a walk from the end; isPos recognises the index
+// expression that stands for "the current element's position".
+//
+// When the counter is used for something else than the element too (alldata: s[:i+1]), the loop keeps a key: the list
+// loop counts j = 0, 1, ... from the END of xs and the counter is defined from j at the head of the body
+// (counterOf(j); nil when the counter IS j, the first spelling).  A leading `var p = E` of the body with E pure
+// arithmetic over the counter, len(xs) and literals, p never assigned, is replaced by E first (so that xs[p] is seen).
+func (tr *gtTr) revRange(orig ast.Node, forPos token.Pos, slice ast.Expr, counter string, body *ast.BlockStmt, isPos func(ast.Expr) bool, counterOf func(j string) ast.Expr, env *venv) *ast.RangeStmt {
+	ref, root, ok := sliceRef(slice)
+	if !ok || env.lookup("len") != nil || env.lookup(root) == nil {
+		return nil
+	}
+	if k, _, ok := tr.rootOf(slice, env); !ok {
+		return nil
+	} else {
+		keys, _, _ := tr.assignedIn([]ast.Node{body}, env)
+		for kk := range keys {
+			if kk == k || (kk.v == k.v && (kk.f == "" || k.f == "")) || kk.v == counter {
+				return nil
+			}
+		}
+	}
+	bad := false
+	ast.Inspect(body, func(n ast.Node) bool {
+		switch y := n.(type) {
+		case *ast.FuncLit:
+			bad = true
+		case *ast.AssignStmt:
+			if y.Tok == token.DEFINE {
+				for _, l := range y.Lhs {
+					if isIdent(l, counter) || isIdent(l, root) || isIdent(l, "len") {
+						bad = true
+					}
+				}
+			}
+		case *ast.ValueSpec:
+			for _, l := range y.Names {
+				if l.Name == counter || l.Name == root || l.Name == "len" {
+					bad = true
+				}
+			}
+		case *ast.RangeStmt:
+			if isIdent(y.Key, counter) || isIdent(y.Key, root) || (y.Value != nil && (isIdent(y.Value, counter) || isIdent(y.Value, root))) {
+				bad = true
+			}
+		}
+		return !bad
+	})
+	if bad {
+		return nil
+	}
+	fresh := root + "_elem"
+	for env.lookup(fresh) != nil || mentionsIdent(body, fresh) {
+		fresh += "x"
+	}
+	seen := map[ast.Node]ast.Node{}
+	b2 := cloneNode(body, seen).(*ast.BlockStmt)
+	// leading pure position locals:  var p = len(xs) - i - 1
+	for len(b2.List) > 1 {
+		name, val, ok := pureLocal(b2.List[0], counter, ref)
+		if !ok || name == counter || name == root || env.lookup(name) != nil {
+			break
+		}
+		rest := &ast.BlockStmt{List: b2.List[1:]}
+		if assignsOrDeclares(rest, name) {
+			break
+		}
+		replaceExprs(rest, func(e ast.Expr) (ast.Expr, bool) {
+			if isIdent2(e, name) {
+				return &ast.ParenExpr{X: cloneNode(val, map[ast.Node]ast.Node{}).(ast.Expr)}, true
+			}
+			return nil, false
+		})
+		b2.List = rest.List
+	}
+	uses := 0
+	replaceExprs(b2, func(e ast.Expr) (ast.Expr, bool) {
+		if ix, ok := e.(*ast.IndexExpr); ok {
+			if r, _, ok := sliceRef(ix.X); ok && r == ref && isPos(ix.Index) {
+				id := ast.NewIdent(fresh)
+				id.NamePos = ix.Pos()
+				uses++
+				return id, true
+			}
+		}
+		return nil, false
+	})
+	if uses == 0 {
+		return nil
+	}
+	key := "_"
+	if mentionsIdent(b2, counter) {
+		// the counter is used as a number too: keep a key
+		if counterOf == nil {
+			key = counter
+		} else {
+			key = root + "_back"
+			for env.lookup(key) != nil || mentionsIdent(b2, key) {
+				key += "x"
+			}
+			def := &ast.AssignStmt{Lhs: []ast.Expr{ast.NewIdent(counter)}, Tok: token.DEFINE, Rhs: []ast.Expr{counterOf(key)}}
+			b2.List = append([]ast.Stmt{def}, b2.List...)
+		}
+	}
+	xs := cloneNode(slice, map[ast.Node]ast.Node{}).(ast.Expr)
+	rs := &ast.RangeStmt{For: forPos, Key: ast.NewIdent(key), Value: ast.NewIdent(fresh), Tok: token.DEFINE,
+		X: &ast.CallExpr{Fun: ast.NewIdent(gtRevName), Args: []ast.Expr{xs}}, Body: b2}
+	tr.loopIndex[rs] = tr.loopIndex[orig]
+	for o, n := range seen {
+		if i, ok := tr.loopIndex[o]; ok {
+			tr.loopIndex[n] = i
+		}
+		if f, ok := tr.autoFuel[o]; ok && tr.autoFuel != nil {
+			tr.autoFuel[n] = f
+		}
+	}
+	return rs
+}
+
+// asRevRangeR: for i := range xs { ... xs[len(xs)-i-1] ... }
+func (tr *gtTr) asRevRangeR(x *ast.RangeStmt, env *venv) *ast.RangeStmt {
+	if x.Tok != token.DEFINE || x.Value != nil {
+		return nil
+	}
+	iv, ok := x.Key.(*ast.Ident)
+	if !ok || iv.Name == "_" {
+		return nil
+	}
+	ref, _, ok := sliceRef(x.X)
+	if !ok {
+		return nil
+	}
+	isPos := func(e ast.Expr) bool {
+		a, b, ok := isSub(e)
+		if !ok {
+			return false
+		}
+		if a1, b1, ok := isSub(a); ok { // (len(xs) - i) - 1   or   (len(xs) - 1) - i
+			return isLenOf(a1, ref) && ((isIdent(unparen(b1), iv.Name) && isIntLit(b, 1)) || (isIntLit(b1, 1) && isIdent(unparen(b), iv.Name)))
+		}
+		return false
+	}
+	return tr.revRange(x, x.For, x.X, iv.Name, x.Body, isPos, nil, env)
+}
+
+// asRevRangeF: for i := len(xs)-1; i >= 0; i-- { ... xs[i] ... }   and   for d := len(xs); d > 0; d-- { ... xs[d-1] ... }
+func (tr *gtTr) asRevRangeF(x *ast.ForStmt, env *venv) *ast.RangeStmt {
+	as, ok := x.Init.(*ast.AssignStmt)
+	if !ok || as.Tok != token.DEFINE || len(as.Lhs) != 1 || len(as.Rhs) != 1 {
+		return nil
+	}
+	iv, ok := as.Lhs[0].(*ast.Ident)
+	if !ok || iv.Name == "_" {
+		return nil
+	}
+	dec, ok := x.Post.(*ast.IncDecStmt)
+	if !ok || dec.Tok != token.DEC || !isIdent(dec.X, iv.Name) {
+		return nil
+	}
+	cond, ok := x.Cond.(*ast.BinaryExpr)
+	if !ok || !isIdent(unparen(cond.X), iv.Name) || !isIntLit(cond.Y, 0) {
+		return nil
+	}
+	var slice ast.Expr
+	var isPos func(ast.Expr) bool
+	var counterOf func(j string) ast.Expr
+	lenOf := func() ast.Expr {
+		return &ast.CallExpr{Fun: ast.NewIdent("len"), Args: []ast.Expr{cloneNode(slice, map[ast.Node]ast.Node{}).(ast.Expr)}}
+	}
+	lenArg := func(e ast.Expr) ast.Expr {
+		c, ok := unparen(e).(*ast.CallExpr)
+		if !ok || !isIdent(c.Fun, "len") || len(c.Args) != 1 {
+			return nil
+		}
+		return c.Args[0]
+	}
+	switch cond.Op {
+	case token.GEQ: // i := len(xs)-1; i >= 0
+		a, b, ok := isSub(as.Rhs[0])
+		if !ok || !isIntLit(b, 1) || lenArg(a) == nil {
+			return nil
+		}
+		slice = lenArg(a)
+		isPos = func(e ast.Expr) bool { return isIdent(unparen(e), iv.Name) }
+		counterOf = func(j string) ast.Expr { // i = len(xs) - 1 - j
+			return &ast.BinaryExpr{X: &ast.BinaryExpr{X: lenOf(), Op: token.SUB, Y: &ast.BasicLit{Kind: token.INT, Value: "1"}}, Op: token.SUB, Y: ast.NewIdent(j)}
+		}
+	case token.GTR: // d := len(xs); d > 0
+		if lenArg(as.Rhs[0]) == nil {
+			return nil
+		}
+		slice = lenArg(as.Rhs[0])
+		isPos = func(e ast.Expr) bool {
+			a, b, ok := isSub(e)
+			return ok && isIdent(unparen(a), iv.Name) && isIntLit(b, 1)
+		}
+		counterOf = func(j string) ast.Expr { // d = len(xs) - j
+			return &ast.BinaryExpr{X: lenOf(), Op: token.SUB, Y: ast.NewIdent(j)}
+		}
+	default:
+		return nil
+	}
+	return tr.revRange(x, x.For, slice, iv.Name, x.Body, isPos, counterOf, env)
+}
+
+// ---- place helpers ----
+//
+//	func (s T) top() *E { return &s[len(s)-1] }        (T a named slice type; or  func (s *T) ... return &(*s)[...])
+//
+// A method without parameters whose whole body returns the address of ONE element of its receiver is a name for
+// that element.  A call x.top() that is used directly as the operand of a field selection -- x.top().f, read or
+// assigned -- is the element expression itself, x[len(x)-1].f (Go dereferences the pointer on the spot; the pointer is
+// not kept, so no aliasing outlives the expression).  Any other use of such a call (p := x.top()) stays outside the
+// subset.  The index expression may mention only the receiver, len and integer literals.
+func (tr *gtTr) placeCall(c *ast.CallExpr, env *venv) (ast.Expr, bool) {
+	if len(c.Args) != 0 || c.Ellipsis.IsValid() {
+		return nil, false
+	}
+	sel, ok := c.Fun.(*ast.SelectorExpr)
+	if !ok {
+		return nil, false
+	}
+	xid, ok := unparen(sel.X).(*ast.Ident)
+	if !ok {
+		return nil, false
+	}
+	v := env.lookup(xid.Name)
+	if v == nil || v.typ.kind != kSlice || v.typ.nname == "" || v.typ.ndir != tr.p.dir || v.banned != "" {
+		return nil, false
+	}
+	fd := tr.p.funcs[v.typ.nname+"."+sel.Sel.Name]
+	if fd == nil || fd.Recv == nil || len(fd.Recv.List) != 1 || len(fd.Recv.List[0].Names) != 1 || fd.Body == nil || len(fd.Body.List) != 1 {
+		return nil, false
+	}
+	if fd.Type.Params.NumFields() != 0 || fd.Type.Results.NumFields() != 1 {
+		return nil, false
+	}
+	if _, isPtr := fd.Type.Results.List[0].Type.(*ast.StarExpr); !isPtr {
+		return nil, false
+	}
+	r := fd.Recv.List[0].Names[0].Name
+	_, ptrRecv := fd.Recv.List[0].Type.(*ast.StarExpr)
+	ret, ok := fd.Body.List[0].(*ast.ReturnStmt)
+	if !ok || len(ret.Results) != 1 {
+		return nil, false
+	}
+	addr, ok := unparen(ret.Results[0]).(*ast.UnaryExpr)
+	if !ok || addr.Op != token.AND {
+		return nil, false
+	}
+	ix, ok := unparen(addr.X).(*ast.IndexExpr)
+	if !ok {
+		return nil, false
+	}
+	// the caller's expression for the slice
+	var self func() ast.Expr
+	if v.ptr {
+		self = func() ast.Expr { return &ast.ParenExpr{X: &ast.StarExpr{X: ast.NewIdent(xid.Name)}} }
+	} else {
+		self = func() ast.Expr { return ast.NewIdent(xid.Name) }
+	}
+	isRecv := func(e ast.Expr) bool {
+		if ptrRecv {
+			st, ok := unparen(e).(*ast.StarExpr)
+			return ok && isIdent(st.X, r)
+		}
+		return isIdent(e, r)
+	}
+	if !isRecv(ix.X) {
+		return nil, false
+	}
+	// the index: receiver, len, integer literals, + and -
+	okIdx := true
+	var conv func(e ast.Expr) ast.Expr
+	conv = func(e ast.Expr) ast.Expr {
+		if isRecv(e) {
+			return self()
+		}
+		switch y := unparen(e).(type) {
+		case *ast.BasicLit:
+			if y.Kind == token.INT {
+				return &ast.BasicLit{Kind: token.INT, Value: y.Value}
+			}
+		case *ast.BinaryExpr:
+			if y.Op == token.ADD || y.Op == token.SUB {
+				return &ast.BinaryExpr{X: conv(y.X), Op: y.Op, Y: conv(y.Y)}
+			}
+		case *ast.CallExpr:
+			if isIdent(y.Fun, "len") && len(y.Args) == 1 && isRecv(y.Args[0]) {
+				return &ast.CallExpr{Fun: ast.NewIdent("len"), Args: []ast.Expr{self()}}
+			}
+		}
+		okIdx = false
+		return e
+	}
+	idx := conv(ix.Index)
+	if !okIdx || env.lookup("len") != nil {
+		return nil, false
+	}
+	return &ast.IndexExpr{X: self(), Index: idx}, true
+}
+
+// inlinePlaces: the simple statement with every x.top().f replaced by x[...].f (a copy; nil when there is none)
+func (tr *gtTr) inlinePlaces(s ast.Stmt, env *venv) ast.Stmt {
+	switch s.(type) {
+	case *ast.AssignStmt, *ast.ExprStmt, *ast.IncDecStmt, *ast.ReturnStmt:
+	default:
+		return nil
+	}
+	found := false
+	ast.Inspect(s, func(n ast.Node) bool {
+		if se, ok := n.(*ast.SelectorExpr); ok {
+			if c, ok := unparen(se.X).(*ast.CallExpr); ok {
+				if _, ok := tr.placeCall(c, env); ok {
+					found = true
+				}
+			}
+		}
+		return !found
+	})
+	if !found {
+		return nil
+	}
+	c2 := cloneNode(s, map[ast.Node]ast.Node{}).(ast.Stmt)
+	replaceExprs(c2, func(e ast.Expr) (ast.Expr, bool) {
+		if se, ok := e.(*ast.SelectorExpr); ok {
+			if c, ok := unparen(se.X).(*ast.CallExpr); ok {
+				if pl, ok := tr.placeCall(c, env); ok {
+					return &ast.SelectorExpr{X: pl, Sel: ast.NewIdent(se.Sel.Name)}, true
+				}
+			}
+		}
+		return nil, false
+	})
+	return c2
+}
+
+func isIdent2(e ast.Expr, name string) bool {
+	id, ok := e.(*ast.Ident)
+	return ok && id.Name == name
+}
+
+// pureLocal: `var p = E` / `p := E` with E built from the counter, len(xs), integer literals, + and -
+func pureLocal(st ast.Stmt, counter, ref string) (string, ast.Expr, bool) {
+	var name string
+	var val ast.Expr
+	switch x := st.(type) {
+	case *ast.AssignStmt:
+		if x.Tok != token.DEFINE || len(x.Lhs) != 1 || len(x.Rhs) != 1 {
+			return "", nil, false
+		}
+		id, ok := x.Lhs[0].(*ast.Ident)
+		if !ok {
+			return "", nil, false
+		}
+		name, val = id.Name, x.Rhs[0]
+	case *ast.DeclStmt:
+		gd, ok := x.Decl.(*ast.GenDecl)
+		if !ok || gd.Tok != token.VAR || len(gd.Specs) != 1 {
+			return "", nil, false
+		}
+		vs := gd.Specs[0].(*ast.ValueSpec)
+		if len(vs.Names) != 1 || len(vs.Values) != 1 || vs.Type != nil {
+			return "", nil, false
+		}
+		name, val = vs.Names[0].Name, vs.Values[0]
+	default:
+		return "", nil, false
+	}
+	var pure func(e ast.Expr) bool
+	pure = func(e ast.Expr) bool {
+		switch y := unparen(e).(type) {
+		case *ast.Ident:
+			return y.Name == counter
+		case *ast.BasicLit:
+			return y.Kind == token.INT
+		case *ast.BinaryExpr:
+			return (y.Op == token.ADD || y.Op == token.SUB) && pure(y.X) && pure(y.Y)
+		case *ast.CallExpr:
+			return isLenOf(y, ref)
+		}
+		return false
+	}
+	if name == "_" || !pure(val) || !mentionsIdent(val, counter) {
+		return "", nil, false
+	}
+	return name, val, true
+}
+
+// assignsOrDeclares: the block assigns to name, takes its address, or declares it again
+func assignsOrDeclares(b *ast.BlockStmt, name string) bool {
+	bad := false
+	ast.Inspect(b, func(n ast.Node) bool {
+		switch y := n.(type) {
+		case *ast.AssignStmt:
+			for _, l := range y.Lhs {
+				if isIdent(l, name) {
+					bad = true
+				}
+			}
+		case *ast.IncDecStmt:
+			if isIdent(y.X, name) {
+				bad = true
+			}
+		case *ast.UnaryExpr:
+			if y.Op == token.AND && mentionsIdent(y.X, name) {
+				bad = true
+			}
+		case *ast.ValueSpec:
+			for _, l := range y.Names {
+				if l.Name == name {
+					bad = true
+				}
+			}
+		case *ast.RangeStmt:
+			if isIdent(y.Key, name) || (y.Value != nil && isIdent(y.Value, name)) {
+				bad = true
+			}
+		case *ast.FuncLit:
+			bad = true
+		}
+		return !bad
+	})
+	return bad
+}
